@@ -223,7 +223,8 @@ func Generate(prop, tier string, seed uint64) *Plan {
 		// (formerly the share of runs dedicated to group-removed-before-first-eval, repaired in /repo; the draw is
 		// kept so that the other choices of a seed do not move)
 	case prop == "C44" && rc.Chance(kfP):
-		cfg.KF = kfEmptyLabel
+		// (formerly the share of runs dedicated to alerts-series-unexpanded-template-label, repaired in /repo; the
+		// draw is kept so that the other choices of a seed do not move)
 	}
 	p := &Plan{Cfg: cfg}
 	switch prop {
@@ -307,9 +308,9 @@ func (g *gen) newAlertRule(interval int64) RuleSpec {
 	case 3:
 		rs.Lbl = []rulemodel.LabelT{{N: "inst", K: "label", V: "s"}, {N: "sev", V: "warn"}}
 	case 4:
-		if g.cfg.KF == kfEmptyLabel {
-			rs.Lbl = []rulemodel.LabelT{{N: "inst", K: "label", V: "x"}} // expands to "" for elements without label x
-		}
+		// expands to "" for elements without label x (the finding alerts-series-unexpanded-template-label was repaired
+		// in /repo: ordinary workload now)
+		rs.Lbl = []rulemodel.LabelT{{N: "inst", K: "label", V: "x"}}
 	}
 	if r.Chance(0.5) {
 		rs.Ann = []rulemodel.LabelT{{N: "summary", K: "value"}}
